@@ -44,6 +44,9 @@ type c37Spec struct {
 	Latency bool
 	// CloseAfter: the closer calls Close only after this many Submit calls returned
 	CloseAfter int
+	// BAfterHandled: producer b starts submitting only after this many items were handled
+	// (puts "submit while a drain / worker is winding down" within reach of few deviations)
+	BAfterHandled int
 	// batch pool
 	BatchMax       int  // policy MaxItems (1 or 2)
 	BatchWait      bool // policy MaxWait > 0 (wait window for one adjacent peer)
@@ -60,7 +63,7 @@ type c37Spec struct {
 func (s c37Spec) bounds() map[string]any {
 	b := map[string]any{"driver": s.Driver, "workers": s.Workers, "queue_size": s.QSize, "producers": 2, "tasks_per_producer": s.Per,
 		"submit_wait": s.Wait, "spawn_order": s.Order, "close_ctx": s.CloseCtx, "submit_ctx": s.SubCtx, "handler_latency_point": s.Latency,
-		"close_after_returned_submits": s.CloseAfter}
+		"close_after_returned_submits": s.CloseAfter, "producer_b_starts_after_handled_items": s.BAfterHandled}
 	if s.Driver == "batch" {
 		b["batch_max_items"] = s.BatchMax
 		b["batch_wait_window"] = s.BatchWait
@@ -98,7 +101,9 @@ type c37Rec struct {
 	tasks map[int]*c37Task
 	ids   []int
 
-	returned int // number of Submit calls that returned
+	returned  int // number of Submit calls that returned
+	returnedA int // ... of producer a
+	admittedA int // ... of producer a with a nil result
 
 	closeCallSeq  int
 	closeRetSeq   int
@@ -109,6 +114,7 @@ type c37Rec struct {
 	overlaps   []int         // shards on which two handler calls overlapped
 	shardSeq   map[int][]int // per shard: items in processing order
 	maxBatch   int
+	handled    int // items whose handler call has finished
 	bogus      []int // item ids handed to a handler / hook that were never submitted
 	handlerEnds map[int][]int // per shard: logical end times of handler calls
 	shardMismatch string      // harness self-check: observed shard != fnv(key) % shards
@@ -159,6 +165,7 @@ func (r *c37Rec) handle(x *vsched.Exec, shard int, ids []int) {
 	for _, id := range ids {
 		if t := r.tasks[id]; t != nil {
 			t.finSeq = r.tick()
+			r.handled++
 			if r.spec.Driver == "mailbox" && int(c37Hash(t.key)%uint64(r.spec.Shards)) != shard {
 				r.shardMismatch = fmt.Sprintf("item %d key %q ran on shard %d", id, t.key, shard)
 			}
@@ -367,6 +374,13 @@ func c37Scenario(s c37Spec) vsched.Scenario {
 			var wg vsync.WaitGroup
 			producer := func(p int) {
 				defer wg.Done()
+				if p == 1 && s.BAfterHandled > 0 {
+					// opens after N handled items; also when that can no longer happen (Close returned,
+					// or producer a is done and everything it got admitted has been handled)
+					vsched.WaitUntil("producer-b-gate", func() bool {
+						return rec.handled >= s.BAfterHandled || rec.closeReturned || (rec.returnedA == s.Per && rec.handled >= rec.admittedA)
+					})
+				}
 				for i := 0; i < s.Per; i++ {
 					t := rec.tasks[(p+1)*10+i]
 					ctx := context.Background()
@@ -384,6 +398,12 @@ func c37Scenario(s c37Spec) vsched.Scenario {
 					t.err = err
 					t.returned = true
 					rec.returned++
+					if p == 0 {
+						rec.returnedA++
+						if err == nil {
+							rec.admittedA++
+						}
+					}
 					x.Log("submit %d %s", t.id, c37ErrName(err))
 					if cancel != nil {
 						cancel()
